@@ -22,6 +22,17 @@ CLAIMED = {
         note="Assumed: sorted()/filter() models (same members), Twisted endpoint constructors, JSON floats as reals. "
              "Connector._use_hints (grouping by priority) is not under contract yet; relay round trip is element-wise only.",
         design="6/C20"),
+    "C12": dict(
+        text="to_be4/from_be4, encode_record/parse_record (round trip for all seven record types as a lemma over the real bodies), "
+             "_Framer.parse_frame/send_frame (frame round trip and 'no frame from any proper prefix' as lemmas over the two "
+             "contracts), _get_expected/parse_prologue/parse_relay_ok (token only after exactly the expected bytes, Disconnect on "
+             "divergence), _Record.send_record/decrypt_message (chunk arithmetic 65519/65535 with loop invariants; every Noise "
+             "failure becomes Disconnect) are verified for all inputs; a linear-arithmetic lemma shows sender packets and "
+             "receiver slices coincide.",
+        note="Assumed: struct '>L' inverse pair, utf-8 codec round trip, Noise AEAD (+16 bytes, forgery raises). Not yet under "
+             "contract: _Framer.add_and_parse and DilatedConnectionProtocol.dataReceived loops (generators), Connector.build_protocol. "
+             "Content equality across the multi-packet split is not proved (packet boundaries are).",
+        design="6/C12"),
 }
 NOT_BUILT = "check not built yet (framework under construction; see DESIGN.md section 11)"
 
